@@ -45,6 +45,60 @@ def _parabola_weights(xs, lo, hi):
     return ws
 
 
+def _textbook_spline_cumsum(xf, y, bc):
+    """running integral of the cubic spline from the textbook slope equations (continuity of S'' at the knots plus the
+    natural / periodic end conditions), assembled and inverted here in exact rational arithmetic; independent of
+    xitorch's spline matrix"""
+    n = len(xf)
+    h = [xf[i + 1] - xf[i] for i in range(n - 1)]
+    A = [[Fraction(0)] * n for _ in range(n)]
+    R = [[Fraction(0)] * n for _ in range(n)]       # right-hand side = R @ y
+    def interior(row, im, i, ip, hl, hr):
+        A[row][im] += 1 / hl
+        A[row][i] += 2 * (1 / hl + 1 / hr)
+        A[row][ip] += 1 / hr
+        R[row][i] += 3 / hl ** 2
+        R[row][im] += -3 / hl ** 2
+        R[row][ip] += 3 / hr ** 2
+        R[row][i] += -3 / hr ** 2
+    for i in range(1, n - 1):
+        interior(i, i - 1, i, i + 1, h[i - 1], h[i])
+    if bc == "natural":
+        A[0][0], A[0][1] = 2 / h[0], 1 / h[0]
+        R[0][1], R[0][0] = 3 / h[0] ** 2, -3 / h[0] ** 2
+        A[n - 1][n - 1], A[n - 1][n - 2] = 2 / h[-1], 1 / h[-1]
+        R[n - 1][n - 1], R[n - 1][n - 2] = 3 / h[-1] ** 2, -3 / h[-1] ** 2
+    elif bc == "periodic":
+        # unknown k_{n-1} = k_0: row n-1 states that, row 0 is the interior equation at the wrap knot
+        A[n - 1][n - 1], A[n - 1][0] = Fraction(1), Fraction(-1)
+        A[0][n - 2] += 1 / h[-1]
+        A[0][0] += 2 * (1 / h[-1] + 1 / h[0])
+        A[0][1] += 1 / h[0]
+        R[0][0] += 3 / h[-1] ** 2 - 3 / h[0] ** 2
+        R[0][n - 2] += -3 / h[-1] ** 2
+        R[0][1] += 3 / h[0] ** 2
+    else:
+        raise KeyError(bc)
+    # Gauss-Jordan inverse in Fractions
+    M = [row[:] + [Fraction(int(i == j)) for j in range(n)] for i, row in enumerate(A)]
+    for c in range(n):
+        p = next(r for r in range(c, n) if M[r][c] != 0)
+        M[c], M[p] = M[p], M[c]
+        pv = M[c][c]
+        M[c] = [v / pv for v in M[c]]
+        for r in range(n):
+            if r != c and M[r][c] != 0:
+                f = M[r][c]
+                M[r] = [a - f * b for a, b in zip(M[r], M[c])]
+    Ainv = [row[n:] for row in M]
+    W = [[sum(Ainv[i][m] * R[m][j] for m in range(n)) for j in range(n)] for i in range(n)]   # slopes = W @ y
+    ks = [sum(float(W[i][j]) * y[..., j] for j in range(n)) for i in range(n)]
+    out = [torch.zeros_like(y[..., 0])]
+    for j in range(n - 1):
+        out.append(out[-1] + (y[..., j] + y[..., j + 1]) * float(h[j] / 2) + (ks[j] - ks[j + 1]) * float(h[j] ** 2 / 12))
+    return torch.stack(out, dim=-1)
+
+
 def squad(cx, n=4, g=0, method="trapz", bc="natural", yshape="vec"):
     x, xf = _grid(cx, n, g)
     if yshape == "vec":
@@ -101,6 +155,8 @@ def squad(cx, n=4, g=0, method="trapz", bc="natural", yshape="vec"):
                     ref[i] = ref[ii - 1] + sum(float(w[k]) * yl[..., ii - 2 + k] for k in range(3))
         refl = torch.stack(ref, dim=-1)
         cx.claim_eq("running integral of the interpolant", csl, refl)
+        if method == "cspline" and bc == "natural":
+            cx.claim_eq("running integral of the textbook natural spline", csl, _textbook_spline_cumsum(xf, yl, "natural"))
         # linearity in y
         y2 = cx.sym("y2", tuple(y.shape))
         s = cx.sym("s", ())
@@ -134,6 +190,7 @@ def squad_periodic(cx, n=3, g=0, yshape="vec"):
             h = float(xf[j + 1] - xf[j])
             ref.append(ref[-1] + (y[j] + 4 * smid[j] + y[j + 1]) * (h / 6))
         cx.claim_eq("running integral of the periodic spline", cs, torch.stack(ref))
+        cx.claim_eq("running integral of the textbook periodic spline", cs, _textbook_spline_cumsum(xf, y, "periodic"))
         cx.claim_eq("last cumsum entry = integrate", cs[-1], sq.integrate(y))
     return "ok"
 
